@@ -49,15 +49,7 @@ Definition hidden (rest : list tev) (a : acc) (t : task) : option acc :=
     end
   | Running pc PIn =>
     match nth_error (t_body t) pc with
-    | Some (CSpawn nm ws b) =>
-      match task_step false t s with
-      | Some s' =>
-        let r := match find_task n (tasks s') with
-                 | Some t' => match t_st t' with Running _ (PSpawned _) => true | _ => false end
-                 | None => false end in
-        Some {| a_s := s'; a_x := a_x a; a_ended := a_ended a; a_sres := (n, pc, r) :: a_sres a |}
-      | None => None
-      end
+    | Some (CSpawn nm ws b) => None     (* the creation is fired by [do_spawn] (TSR, or the child's first event) *)
     | Some _ => if mem n (a_ended a)
                 then match task_step false t s with
                      | Some s' => Some {| a_s := s'; a_x := a_x a; a_ended := remove_name n (a_ended a); a_sres := a_sres a |}
@@ -68,6 +60,40 @@ Definition hidden (rest : list tev) (a : acc) (t : task) : option acc :=
   | Running _ _ => plain
   | Closing => plain
   | _ => None
+  end.
+
+(** TaskManager.Create of the pip:run in the current command of task [n]; records the result. *)
+Definition do_spawn (n : name) (a : acc) : option acc :=
+  let s := a_s a in
+  match find_task n (tasks s) with
+  | Some t =>
+    match t_st t with
+    | Running pc PIn =>
+      match nth_error (t_body t) pc with
+      | Some (CSpawn _ _ _) =>
+        match task_step false t s with
+        | Some s' =>
+          let r := match find_task n (tasks s') with
+                   | Some t' => match t_st t' with Running _ (PSpawned _) => true | _ => false end
+                   | None => false end in
+          Some {| a_s := s'; a_x := a_x a; a_ended := a_ended a; a_sres := (n, pc, r) :: a_sres a |}
+        | None => None
+        end
+      | _ => None
+      end
+    | _ => None
+    end
+  | None => None
+  end.
+
+(** The task that is inside a pip:run command creating [child]. *)
+Definition spawner_of (child : name) (s : state) : option name :=
+  match find (fun t => match t_st t with
+                       | Running pc PIn => match nth_error (t_body t) pc with
+                                           | Some (CSpawn nm _ _) => N.eqb nm child | _ => false end
+                       | _ => false end) (tasks s) with
+  | Some t => Some (t_name t)
+  | None => None
   end.
 
 Definition same_failed (a b : acc) : bool := Nat.eqb (length (failed (a_s a))) (length (failed (a_s b))).
@@ -130,7 +156,12 @@ Definition on_event (e : tev) (rest : list tev) (a : acc) : option acc :=
     end
   | TB n i =>
     let a1 := sat FUEL false rest a in
-    let a2 := if ready_tb n i a1 then a1 else sat FUEL true rest a1 in
+    let a1' := if ready_tb n i a1 then a1 else
+                 match spawner_of n (a_s a1) with
+                 | Some p => match do_spawn p a1 with Some a' => sat FUEL false rest a' | None => a1 end
+                 | None => a1
+                 end in
+    let a2 := if ready_tb n i a1' then a1' else sat FUEL true rest a1' in
     if ready_tb n i a2 then
       match step false (LTask n) (a_s a2) with Some s' => Some (with_s a2 s') | None => None end
     else None
@@ -148,9 +179,19 @@ Definition on_event (e : tev) (rest : list tev) (a : acc) : option acc :=
     | None => None
     end
   | TSR n i r =>
+    let has (x : acc) := existsb (fun y => match y with (m, j, r') => N.eqb m n && Nat.eqb i j && Bool.eqb r r' end) (a_sres x) in
     let a1 := sat FUEL false rest a in
-    if existsb (fun x => match x with (m, j, r') => N.eqb m n && Nat.eqb i j && Bool.eqb r r' end) (a_sres a1)
-    then Some a1 else None
+    if has a1 then Some a1 else
+    match do_spawn n a1 with
+    | Some a2 => if has a2 then Some a2 else
+                 (* the implementation rejected it: an error may have reached a context first *)
+                 let a3 := sat FUEL true rest a1 in
+                 match do_spawn n a3 with
+                 | Some a4 => if has a4 then Some a4 else None
+                 | None => None
+                 end
+    | None => None
+    end
   end.
 
 Fixpoint replay (tr : list tev) (a : acc) : option acc :=
